@@ -30,11 +30,9 @@ Known classes (recorded defects, see DESIGN.md section 7 / known_findings.json):
   C13-tryfrom-datetime-table   toml::value::ValueSerializer::serialize_struct ignores the date-time tunnel name:
         Value::try_from / Table::try_from of a value containing a date-time yields a Table with the private key
         `$__toml_private_datetime`.  Classifier: `tryfrom` comparison, the value contains a date-time.
-  C13-valueser-root-tuple-variant   toml::ser::ValueSerializer::serialize_tuple_variant (crates/toml/src/ser.rs) is
-        `self.serialize_seq(Some(len))`: a tuple variant AT THE ROOT of the single-value serializer is written as a bare
-        array, its variant name silently dropped (`E::T(1, 2)` -> `[1, 2]`), and no value deserializer reads that text
-        back as E.  (toml's document Serializer does the same but then refuses the array as a non-table root; toml_edit's
-        ValueSerializer writes `{ T = [1, 2] }`.)  Classifier: routes_ser, the root value is a tuple variant, single-value routes.
+  (repaired in /repo: C13-valueser-root-tuple-variant — toml::ser::ValueSerializer wrote a tuple variant at the root
+        as a bare array, dropping its name; it now writes `{ T = [1, 2] }` like toml_edit's ValueSerializer.  The
+        former witness stays in the fixed cases as a regression case.)
   C07-tryfrom-nested-none-dropped   (see lib/props/c07.py) shows here as try_from = Ok where to_string = Err(unsupported-none).
   private-datetime-key (F14)   the case spells one of the private in-band names.
 """
@@ -51,8 +49,8 @@ HARNESS = {"bin": "serde"}
 THEOREMS = [
     "level: the TOML value tree; a decoding route = a function of (type, tree the text parses to) (coq/Model/SerdeRoutes.v decode): t e esl edoc eim efs tvd evd = de_value; tval tvdval = to_toml_value then tv_de; ttab = to_toml_table then tv_de",
     "C13_twin_deserializers / C13_decode_routes: for every type without char-keyed maps and EVERY tree, any two routes that succeed return equal values (up to map order); the table route needs a root with distinct keys not starting with the private key",
-    "C13_on_serialized_refuted / C13_on_serialized_value_refuted: 'every route succeeds on serialized text' is FALSE (known findings C13-tryinto-datetime-string, C13-valueser-root-tuple-variant), proved with the witnesses",
-    "C13_on_serialized_partial / C13_on_serialized_value_partial: every toml_edit-based route returns the value for every type; the toml::Value / toml::Table routes too when the serialized tree shows no date-time and no private key; the single-value text unless the root is a tuple variant",
+    "C13_on_serialized_refuted: 'every route succeeds on serialized text' is FALSE (known finding C13-tryinto-datetime-string), proved with the witness",
+    "C13_on_serialized_partial / C13_on_serialized_value: every toml_edit-based route returns the value for every type, on the document and on the single-value text (C13_value_text_tuple_variant: the former witness of the repaired C13-valueser-root-tuple-variant); the toml::Value / toml::Table routes too when the serialized tree shows no date-time and no private key",
     "C13_try_from_refuted: Value::try_from differs from parse(to_string) on a date-time (known finding C13-tryfrom-datetime-table)",
     "C13_try_from_partial / C13_twin_serializers: Value::try_from / Table::try_from build exactly the toml::Value (same key order) the serialized document parses to, when it shows no date-time and no private key",
 ]
@@ -109,11 +107,6 @@ def tree_has_datetime(n):
     if n[0] == "t":
         return any(tree_has_datetime(x) for _, x in n[1])
     return False
-
-
-def root_tuple_variant(ty, v):
-    """classifier of the known class C13-valueser-root-tuple-variant: the ROOT value itself is a tuple variant"""
-    return ty[0] == "E" and v[0] == "E" and ty[2][v[1]][1] == "t"
 
 
 def dt_or_value_leaf(ty):
@@ -239,7 +232,7 @@ VLEAF_TY = ("S", "S", [("v", ("v",))])
 VLEAF_VAL = ("R", [("V", ("X", "1979-05-27"))])
 S3_TY = ("S", "V", [("v", ("O", ("L", ("O", ("int", "i32")))))])
 S3_VAL = ("R", [("O", ("L", [("O", ("I", 1)), ("N",)]))])
-# enum E { T(i32, i32) }, E::T(1, 2): toml::ser::ValueSerializer writes `[1, 2]` (known class C13-valueser-root-tuple-variant)
+# enum E { T(i32, i32) }, E::T(1, 2): toml::ser::ValueSerializer wrote `[1, 2]` (C13-valueser-root-tuple-variant, repaired): regression case
 TV_TY = ("E", "E", [("T", "t", [("int", "i32"), ("int", "i32")])])
 TV_VAL = ("E", 0, ("L", [("I", 1), ("I", 2)]))
 
@@ -366,7 +359,6 @@ def judge(case, line):
             groups = [(doc_routes, None), (val_routes, v)]
         else:
             groups = [(doc_routes + val_routes, v)]
-        tuple_variant_root = case.cmd == "routes_ser" and root_tuple_variant(ty, v)
         for routes, gv in groups:
             reference = ("in", gv) if (case.cmd == "routes_ser") else None
             for r in routes:
@@ -375,8 +367,6 @@ def judge(case, line):
                     out.append(("route %s missing" % r, None))
                     continue
                 cls = "private-datetime-key" if private else (dt_class if r in VALUE_FAMILY else None)
-                if cls is None and tuple_variant_root and r in VAL_ROUTES:
-                    cls = "C13-valueser-root-tuple-variant"
                 if x == "err":
                     STATS["err:" + r] += 1
                     if must_all_succeed:
